@@ -7,7 +7,8 @@ RULE = ("(A) MC_Core on every mutator family: frame conditions (bits outside the
         "calls change nothing, pos valid, for every content up to L bits x every argument in/at/beyond the ends. "
         "(B) Gen_Core families grow/del/setitem/setslice/range/set/replace/bitwise: TLC enumerates every (content, call) "
         "edge (indices -(n+2)..n+2, None, steps incl. 0 and negative, empty/self operands, integer values at the limits), "
-        "each replayed on BitArray and BitStream from rotating positions and construction routes. (C) random sequences of "
+        "each replayed on BitArray and BitStream from rotating positions and construction routes. (B2) behaviours of the Ref machine (Ref.tla: three live "
+        "objects, 8 calls each, cross-object operands, lsb0 toggles) printed by tlc -simulate and replayed. (C) random sequences of "
         "3-9 mutations on one object at byte/word/kilobit lengths incl. byteswap with struct strings/ints/iterables, "
         "replace with count/bytealigned. Every event: return value, new content, pos and all other live objects judged by TLC.")
 
@@ -21,6 +22,7 @@ def run(chk):
         fams = [('grow', 3, 2, 3), ('del', 2, 2, 2), ('setitem', 3, 2, 3), ('setslice', 2, 1, 1), ('range', 2, 2, 2),
                 ('set', 2, 2, 2), ('replace', 2, 1, 1), ('bitwise', 2, 2, None)]
     common.run_families(chk, fams, MUTABLE)
+    common.run_ref_machine(chk, mc=False, procs=16 if thorough else 8, num=60 if thorough else 5, thorough=thorough)
     chk.exhaustive = True
     common.run_random(chk, drivers.c03_program, 8000 if thorough else 1500, 3, huge=0.02 if thorough else 0.0)
     chk.flush()
